@@ -439,3 +439,66 @@ def grideval_function():
         if bad in body: raise ExtractionError("grideval(): unhandled C++ construct '%s' left after the rewrite rules" % bad)
     hdr = "struct ndsparse* grideval(const double* const* coords, size_t coords_size, const size_t* coords_sizes)"
     return Extracted("grideval", hdr, body, r, GRIDEVAL_H, X.find_loops(body))
+
+# ---------------------------------------------------------------------------
+# auxiliary key store (aux.h, fitsio.cpp reservedFitsKeyword): extraction for exact execution of operation histories (C16)
+AUX_H = "include/photospline/detail/aux.h"
+AUX_PRELUDE = r'''
+#include <stdint.h>
+#include <stddef.h>
+#include <stdbool.h>
+typedef char* char_ptr; typedef char_ptr* char_ptr_ptr; typedef char_ptr_ptr* char_ptr_ptr_ptr;
+uint32_t naux; char_ptr_ptr_ptr aux;
+int vp_thrown;
+void* vp_new(size_t elsize, size_t n); void* vp_allocate(size_t elsize, size_t n); void vp_deallocate(void* p, size_t n);
+void  vp_copy(const void* first, const void* last, void* out);
+size_t strlen(const char*); int strcmp(const char*, const char*); int strncmp(const char*, const char*, size_t);
+int vp_isupper(int); int vp_isdigit(int); int vp_islower(int);
+'''
+
+def strip_try_catch(rules, body):
+    """R22: try{ BODY }catch(...){ HANDLER } -> { BODY }   (allocation failure is not modelled; the handlers only run then)"""
+    n = 0
+    while True:
+        blank = X.blank_comments_and_strings(body)
+        m = re.search(r"(?<![A-Za-z0-9_])try\s*\{", blank)
+        if not m: break
+        b0 = blank.index("{", m.start()); b1 = X.match_close(blank, b0, "{", "}")
+        mc = re.match(r"\s*catch\s*\(\s*\.\.\.\s*\)\s*\{", blank[b1 + 1:])
+        if not mc: raise ExtractionError("try without catch(...)")
+        c0 = b1 + 1 + mc.end() - 1; c1 = X.match_close(blank, c0, "{", "}")
+        body = body[:m.start()] + body[b0:b1 + 1] + body[c1 + 1:]; n += 1
+    rules.counts["R22_try_catch"] = rules.counts.get("R22_try_catch", 0) + n
+    return body
+
+def aux_functions():
+    s = src(AUX_H); out = []
+    def common(r, body):
+        body = X.strip_comments(body)
+        body = strip_try_catch(r, body)
+        body = r.sub("R7_throw", r"throw\s+std::runtime_error\(.*?\);", "{ vp_thrown = 1; return false; }", body, flags=re.S)
+        body = r.sub("R1_address_deref", r"&\*", "", body)
+        body = r.sub("R4_nullptr", r"\bnullptr\b", "NULL", body)
+        body = r.sub("R15_new_array", r"new char_ptr\[(.*?)\]", r"(char_ptr*)vp_new(sizeof(char_ptr), \1)", body)
+        body = r.sub("R17_allocate", r"allocate<(\w+)>\((.*?)\)(\s*[;+])", r"((\1*)vp_allocate(sizeof(\1), \2))\3", body)
+        body = r.sub("R17_deallocate", r"(?<![A-Za-z0-9_])deallocate\(", "vp_deallocate(", body)
+        body = r.sub("R16_copy_n", r"std::copy_n\(([^,]+),([^,]+),([^;]+)\);", r"vp_copy(\1, (\1) + (\2), \3);", body)
+        body = r.sub("R16_copy", r"std::copy\(", "vp_copy(", body)
+        body = r.sub("R24_ctype", r"std::(isupper|isdigit|islower)\(", r"vp_\1(", body)
+        return body
+    for name, hdr, extra in (("get_aux_value", "const char* get_aux_value(const char* key)", None),
+                             ("remove_key", "bool remove_key(const char* key)", None),
+                             ("write_key", "bool write_key(const char* key, const char* valuedata_p, size_t valuedata_size)", "write")):
+        start, header, body, end = X.find_function(s, r"splinetable<Alloc>::%s\s*\(" % name)
+        r = X.Rules(); r.counts["R1_member"] = 1
+        body = common(r, body)
+        if extra == "write":
+            # R23: the text of the value (operator<< of the value type, a library contract) is supplied as a parameter
+            body = r.sub("R23_formatted_value", r"std::ostringstream ss;\s*ss << value;\s*if\(ss\.fail\(\)\)\s*return\(false\);\s*std::string valuedata=ss\.str\(\);", "", body, must_fire=True)
+            body = r.sub("R18_size", r"valuedata\.size\(\)", "valuedata_size", body, must_fire=True)
+            body = r.sub("R18_begin_end", r"valuedata\.begin\(\),\s*valuedata\.end\(\)", "valuedata_p, valuedata_p + valuedata_size", body, must_fire=True)
+        for bad in ("std::", "try", "catch", "throw", "allocate<"):
+            if re.search(r"(?<![A-Za-z0-9_])" + re.escape(bad), body): raise ExtractionError("%s(): unhandled C++ construct '%s' left after the rewrite rules" % (name, bad))
+        out.append(Extracted(name, hdr, body, r, AUX_H, X.find_loops(body)))
+    rk = free_function("src/core/fitsio.cpp", "reservedFitsKeyword")
+    return [rk] + out
